@@ -727,7 +727,8 @@ def opt_setters(ctx, lexpr):
                if (f.arg_count == 1 and ty(f, 1) == OPT and domain(ty(f, 0)))
                or (f.arg_count == 2 and ty(f, 1) == OPT and ty(f, 2) == KS and ty(f, 0) == "bool")}
     setters = {f.path.rsplit("::", 1)[1]: f for f in member if f.arg_count == 2 and ty(f, 1) == OPT and ty(f, 0) == OPT}
-    inl = lambda x, b: b.crate == lexpr.name and (b.path.startswith(OPT + "::") or b.path.startswith(KS + "::"))
+    synt = lex.syntax_helpers(lexpr)
+    inl = lambda x, b: b.crate == lexpr.name and (b.path.startswith(OPT + "::") or b.path.startswith(KS + "::") or b.path in synt)
 
     def hook(S, fn, bb, t, args, path):
         nm = F.callee_names(t)
